@@ -1403,6 +1403,10 @@ func genC26(r *simrt.Rand, tier string) any {
 		// fault-injecting class: the per-entry attribute refresh (lstat) of some entries fails while the
 		// directory is being listed - once, or for one entry every time. A listing hit by such a fault may
 		// fail; one that completes must still hold every name exactly once within the size limit.
+		if r.Pct(35) {
+			// the backend's directory read itself breaks off half-way (entries so far AND an error)
+			sc.Faults = append(sc.Faults, simfs.Fault{Op: "File.Readdir", Nth: 1 + r.Int(4), Kind: "short", Short: r.Int(len(sc.Tree))})
+		}
 		for i, nf := 0, 1+r.Int(2); i < nf; i++ {
 			f := simfs.Fault{Op: "Lstat", Kind: "eio"}
 			if r.Pct(50) {
